@@ -82,8 +82,10 @@ CLAIMED["C08"] = dict(
 )
 CLAIMED["C09"] = dict(
     category="translation_validation",
-    technique="per-program translation validation with two Coq semantics (Sem/Src.v on the real typed source tree, Sem/GoSem.v on the real emitted Go AST) evaluated in coqc; both semantics validated against outputs recorded from real Go; general pass-correctness theorems open",
-    text="Programs with printing probes around operands, arguments, conditions and branches, a systematic matrix of unit-typed effect expressions x statement positions, Ref updates and failing operations are compiled; order and multiplicity of effects and the failure point of the real Go AST (after ANF, Go generation, DCE) must equal the typed source program's under the Coq semantics. anf_correct/dce_correct are not proved; && / || evaluation of both operands is a known finding.",
+    technique="per-program translation validation with two Coq semantics (Sem/Src.v on the real typed source tree, Sem/GoSem.v on the real emitted Go AST) evaluated in coqc; both semantics validated against outputs recorded from real Go; plus a Coq model of anf.rs (continuation-passing, explicit gensym counter) with the theorem that A-normalisation keeps every operation exactly once, in left-to-right order, inside the same branch, the model being compared node for node with the real A-normal form of every function",
+    text="Programs with printing probes around operands, arguments, conditions and branches, a systematic matrix of unit-typed effect expressions x statement positions, Ref updates and failing operations are compiled; order and multiplicity of effects and the failure point of the real Go AST (after ANF, Go generation, DCE) must equal the typed source program's under the Coq semantics. "
+         "anf_keeps_every_operation_once_in_order / anf_in_context_keeps_order (no axioms): for every lifted body, counter value and continuation that performs the received operation first, the operation trace of the model's A-normal form is the left-to-right operands-first trace of the source, with if/while/match branches kept apart. The model (C09/Anf.v) must equal the real A-normal form (names of temporaries included) for every function of every generated and corpus program. "
+         "Go generation and DCE are covered by translation validation only; && / || evaluation of both operands is a known finding (short_circuit_refuted).",
     design_ref="DESIGN.md §4 C09",
     note=TRUST + " Sem/GoSem.v is a model of Go (slices immutable, no floats, one goroutine schedule); Sem/Src.v is the source-level meaning; both reproduce the recorded real-Go output of 63-66 corpus programs. This is validation per program, not a proof about all programs.",
 )
